@@ -856,8 +856,8 @@ def _execute_runtime(schedule, h: Harness, res: Result):
         except Exception as e:  # noqa: BLE001
             exc = e
         if missing:
-            if not isinstance(exc, TypeError) or px.calls:
-                res.add("C11", "missing_control", "C11:py:missing_control", i, "TypeError and no filter call", f"exc={type(exc).__name__ if exc else None} calls={len(px.calls)}")
+            if exc is None or px.calls:
+                res.add("C11", "missing_control", "C11:py:missing_control", i, "the tick is refused (an exception) and the filter is not called", f"exc={type(exc).__name__ if exc else None} calls={len(px.calls)}")
                 if exc is None:
                     break
             continue
